@@ -269,6 +269,12 @@ func runC08(c *an.Ctx) {
 			repAl := map[ssa.Value]bool{}
 			if rep != nil {
 				repAl = an.Aliases(rep)
+				// other loads of the same never-reassigned struct field (pos.repeatNumber read twice)
+				an.Instrs(fn, func(in ssa.Instruction) {
+					if v, ok := in.(ssa.Value); ok && an.XBSameLocation(rep, v) {
+						repAl[v] = true
+					}
+				})
 				if sl, ok := an.XBSlotOf(rep); ok {
 					for _, v := range sl.Values() {
 						repAl[v] = true
@@ -278,9 +284,9 @@ func runC08(c *an.Ctx) {
 				for _, v := range repPass.Values() {
 					repAl[v] = true
 				}
-			} else {
-				continue
 			}
+			// (repeat argument not visible as a value of this function: no test of it can exist here, so every
+			// advance of the layer counter after the call is unguarded)
 			nz := an.XBEdgesWhere(fn, func(r an.XBRel) bool {
 				x, y, op := r.X, r.Y, r.Op
 				if _, isK := an.XBInt64(x); isK {
@@ -563,7 +569,14 @@ func runC08(c *an.Ctx) {
 				_, isPhi := r.X.(*ssa.Phi)
 				return isK && isPhi && r.Op == token.LSS && fmt.Sprint(k) == drStr
 			})
-			c.Check(len(counter) > 0 && an.GuardedBy(fn, nil, call, counter) && !an.Reaches(fn, call, call, counter, nil), "O4", "R-CONST", an.FuncName(fn), "layer-loop<depthRepeat", call.Pos(),
+			bounded := len(counter) > 0 && an.GuardedBy(fn, nil, call, counter) && !an.Reaches(fn, call, call, counter, nil)
+			if !bounded {
+				var kDR int64
+				if _, err := fmt.Sscan(drStr, &kDR); err == nil {
+					bounded = an.XBCounterBelow(fn, call, kDR) // rotated counted loop ("for range depthRepeat")
+				}
+			}
+			c.Check(bounded, "O4", "R-CONST", an.FuncName(fn), "layer-loop<depthRepeat", call.Pos(),
 				"each layer receives at most depthRepeat sub-DAGs", "a layer-filling loop is not bounded per iteration by counter < depthRepeat="+drStr)
 			// the depth argument does not change inside the inner (repeat) loop: it is not a phi of the innermost loop stepped per child
 			stepped := false
@@ -611,6 +624,10 @@ func runC08(c *an.Ctx) {
 
 // c08NoBound is "no lower bound known".
 const c08NoBound = int64(-1 << 40)
+
+// c08MaxDepth bounds the derivation depth of the lower-bound analysis (cycles over values are cut by the busy set; this
+// only protects against pathological chains).
+const c08MaxDepth = 24
 
 // c08LB computes a lower bound of integer value v as seen at site (an instruction of v's function; for a phi operand
 // the terminator of the predecessor block plus the edge taken). It understands constants, +,-,/,% with constants,
@@ -674,10 +691,119 @@ func (a *c08LB) refine(v ssa.Value, lb int64, facts []an.XBRel) int64 {
 	return lb
 }
 
+// cellField: lower bound of field fld of a local struct cell = minimum over everything that can be stored there
+// (flow-insensitive): individual field stores, whole-struct stores, and the zero value when no whole struct is stored.
+func (a *c08LB) cellField(cell *ssa.Alloc, fld int, fn *ssa.Function, depth int) int64 {
+	if depth > c08MaxDepth {
+		return -c08NoBound
+	}
+	lb := -c08NoBound
+	whole := false
+	take := func(l int64) {
+		if l < lb {
+			lb = l
+		}
+	}
+	for _, r := range *cell.Referrers() {
+		switch x := r.(type) {
+		case *ssa.Store:
+			if x.Addr == ssa.Value(cell) {
+				whole = true
+				take(a.structField(x.Val, fld, fn, x, depth+1))
+			}
+		case *ssa.FieldAddr:
+			if x.Field != fld {
+				continue
+			}
+			for _, rr := range *x.Referrers() {
+				if st, ok := rr.(*ssa.Store); ok && st.Addr == ssa.Value(x) {
+					take(a.at(st.Val, fn, st, nil, depth+1))
+				}
+			}
+		}
+	}
+	if !whole {
+		take(0) // zero-initialised
+	}
+	if lb == -c08NoBound {
+		return c08NoBound
+	}
+	return lb
+}
+
+// structField: lower bound of field fld of a struct value.
+func (a *c08LB) structField(v ssa.Value, fld int, fn *ssa.Function, site ssa.Instruction, depth int) int64 {
+	if depth > c08MaxDepth {
+		return -c08NoBound
+	}
+	switch x := v.(type) {
+	case *ssa.Const:
+		return 0 // zero value of the struct
+	case *ssa.UnOp:
+		if x.Op == token.MUL {
+			if cell, ok := x.X.(*ssa.Alloc); ok {
+				return a.cellField(cell, fld, fn, depth+1)
+			}
+		}
+	case *ssa.Parameter:
+		if i := func() int {
+			for i, q := range x.Parent().Params {
+				if q == x {
+					return i
+				}
+			}
+			return -1
+		}(); i >= 0 {
+			return a.atSlot(an.XBSlot{Fn: x.Parent(), Idx: i, Field: fld}, depth+1)
+		}
+	case *ssa.Call:
+		if g := an.Callee(x).Static; g != nil && a.g.In[g] {
+			lb := -c08NoBound
+			for _, r := range an.Returns(g) {
+				if len(r.Results) == 1 {
+					if l := a.structField(r.Results[0], fld, g, r, depth+1); l < lb {
+						lb = l
+					}
+				}
+			}
+			if lb != -c08NoBound {
+				return lb
+			}
+		}
+	case *ssa.Extract:
+		if call, ok := x.Tuple.(*ssa.Call); ok {
+			if g := an.Callee(call).Static; g != nil && a.g.In[g] {
+				lb := -c08NoBound
+				for _, r := range an.Returns(g) {
+					if x.Index < len(r.Results) {
+						if l := a.structField(r.Results[x.Index], fld, g, r, depth+1); l < lb {
+							lb = l
+						}
+					}
+				}
+				if lb != -c08NoBound {
+					return lb
+				}
+			}
+		}
+	case *ssa.Phi:
+		lb := -c08NoBound
+		for _, e := range x.Edges {
+			if l := a.structField(e, fld, fn, site, depth+1); l < lb {
+				lb = l
+			}
+		}
+		if lb != -c08NoBound {
+			return lb
+		}
+	}
+	return c08NoBound
+}
+
 // atSlot: lower bound of a parameter slot = minimum over all static call sites of what they pass
 func (a *c08LB) atSlot(sl an.XBSlot, depth int) int64 {
 	cs := a.g.Callers[sl.Fn]
-	if len(cs) == 0 || depth >= 8 {
+	if len(cs) == 0 || depth >= c08MaxDepth-4 {
 		return c08NoBound
 	}
 	lb := -c08NoBound
@@ -694,7 +820,18 @@ func (a *c08LB) atSlot(sl an.XBSlot, depth int) int64 {
 		case isPass:
 			l = a.atSlot(pass, depth+1)
 		default:
-			return c08NoBound
+			// a struct variable handed over as a whole: bound of that field of the variable
+			l = c08NoBound
+			if sl.Field >= 0 && sl.Idx < len(call.Common().Args) {
+				if u, ok := call.Common().Args[sl.Idx].(*ssa.UnOp); ok && u.Op == token.MUL {
+					if cell, ok := u.X.(*ssa.Alloc); ok {
+						l = a.cellField(cell, sl.Field, call.Parent(), depth+1)
+					}
+				}
+			}
+			if l == c08NoBound {
+				return c08NoBound
+			}
 		}
 		n++
 		if l < lb {
@@ -711,7 +848,7 @@ func (a *c08LB) at(v ssa.Value, fn *ssa.Function, site ssa.Instruction, extra *a
 	if k, ok := an.XBInt64(v); ok {
 		return k
 	}
-	if depth > 12 || a.busy[v] {
+	if depth > c08MaxDepth || a.busy[v] {
 		return -c08NoBound // on a cycle: neutral element of min (the other operands decide)
 	}
 	a.busy[v] = true
@@ -799,10 +936,17 @@ func (a *c08LB) at(v ssa.Value, fn *ssa.Function, site ssa.Instruction, extra *a
 		// field of a struct parameter that was spilled into a local cell
 		if sl, ok := an.XBSlotOf(x); ok {
 			lb = a.atSlot(sl, depth)
+		} else if x.Op == token.MUL {
+			// field of a local struct variable (e.g. the result of the depth inference kept in a variable)
+			if fa, ok := x.X.(*ssa.FieldAddr); ok {
+				if cell, ok := fa.X.(*ssa.Alloc); ok {
+					lb = a.cellField(cell, fa.Field, fn, depth+1)
+				}
+			}
 		}
 	case *ssa.Extract:
 		if call, ok := x.Tuple.(*ssa.Call); ok {
-			if g := an.Callee(call).Static; g != nil && a.g.In[g] && depth < 8 {
+			if g := an.Callee(call).Static; g != nil && a.g.In[g] && depth < c08MaxDepth-4 {
 				lb = -c08NoBound
 				for _, r := range an.Returns(g) {
 					if x.Index < len(r.Results) {
